@@ -938,3 +938,84 @@ def stale_responder_script(rng, name, pt=60, lost=100, gap=24):
         ops.append("ndeliver 0")
     ops.append("nexpect mesh 1 2")
     return Script(name, ops, {"suite": "node", "noshrink": True})
+
+
+def reconfig_restart_script(rng, name, before, after, pt_after=None):
+    """node 2 is restarted on the same address with ANOTHER configuration (cipher list / peer timeout) and dials node 1, which still holds the old session:
+    the new handshake must replace the old peer record completely — session, mode (plain or sealed), advertised timeout"""
+    ops = ["nkeys 2 %s" % rng.bytes(6).hex(), node_line(1, key=0, trust=(0, 1), algos=before[0], ka="1", pt=300), node_line(2, key=1, trust=(0, 1), algos=before[1], ka="1", pt=300)]
+    ops += ["nconnect 2 p1"] + drain(6)
+    t = 0
+    for _ in range(3):
+        t += 1
+        ops += second([1, 2], t)
+    for a, b in ((1, 2), (2, 1)):
+        ops += ["nframe %d %s" % (a, hx(ipv4_packet(ip4(a), ip4(b), b"before"))), "ndeliver 0"]
+    ops.append(node_line(2, key=1, trust=(0, 1), algos=after[1], ka="1", pt=pt_after or 300))
+    ops += ["nconnect 2 p1"] + drain(6)
+    for k in range(70):
+        t += 1
+        ops += second([1, 2], t)
+        if k % 6 == 0:
+            for a, b in ((1, 2), (2, 1)):
+                ops += ["nframe %d %s" % (a, hx(ipv4_packet(ip4(a), ip4(b), b"after %d" % k))), "ndeliver 0"]
+    ops.append("nexpect mesh 1 2")
+    return Script(name, ops, {"suite": "node", "noshrink": True})
+
+
+def nat_dialback_script(rng, name, both_nat, wait=0):
+    """nodes behind the address-filtering NAT of the mock socket that dial each other: the first ping of one side is filtered (the other has not sent
+    anything yet), both are in the handshake at once (dual open); after `wait` seconds of nothing but retransmissions both must be connected.
+    With wait > 120 the first attempt of node 1 has been given up before node 2 dials back."""
+    ops = ["nkeys 2 %s" % rng.bytes(6).hex(), node_line(1, key=0, trust=(0, 1), ka="1", nat=1 if both_nat else 0), node_line(2, key=1, trust=(0, 1), ka="1", nat=1)]
+    ops += ["npeer 1 p2"] + drain(3)
+    t = 0
+    for _ in range(wait):
+        t += 1
+        ops += second([1, 2], t)
+    ops += ["npeer 2 p1"] + drain(6)
+    for _ in range(30):
+        t += 1
+        ops += second([1, 2], t)
+    for a, b in ((1, 2), (2, 1)):
+        ops += ["nframe %d %s" % (a, hx(ipv4_packet(ip4(a), ip4(b), b"nat"))), "ndeliver 0"]
+    ops.append("nexpect mesh 1 2")
+    return Script(name, ops, {"suite": "node", "noshrink": True})
+
+
+def plain_long_script(rng, name, pt, seconds):
+    """three nodes that all enabled 'plain', peer timeout `pt`, run for several timeouts on a delivering network: nobody times anybody out"""
+    ports = [1, 2, 3]
+    ops = ["nkeys 2 %s" % rng.bytes(6).hex()]
+    for p in ports:
+        ops.append(node_line(p, key=(p - 1) % 2, trust=(0, 1), algos=algos_str(True, []), ka="-", pt=pt))
+    ops += connect_chain(3)
+    t = 0
+    for _ in range(seconds):
+        t += 1
+        ops += second(ports, t)
+    ops.append("nexpect mesh 1 2 3")
+    return Script(name, ops, {"suite": "node", "noshrink": True})
+
+
+def late_duplicate_script(rng, name, at=70):
+    """the first handshake's ping reaches node 2 again `at` seconds late (the lingering handshake of the session is gone by then): node 2 opens an attempt for
+    node 1's address next to the live session.  The attempt is given up after its retry budget; afterwards node 1 restarts and dials again: the pair must
+    reconnect (nothing of the abandoned attempt may block the new handshake)"""
+    ops = mesh(rng, 2, pt=60) + ["npeer 1 p2"] + drain(6)
+    t = 0
+    while t < at:
+        t += 1
+        ops += second([1, 2], t)
+    ops += ["nreplay w0 2 orig", "ndrop 0", "ndrop 0"]
+    for _ in range(128):
+        t += 1
+        ops += second([1, 2], t)
+    ops += ["nrestart 1", "npeer 1 p2"] + drain(6)
+    for _ in range(60 + 125):
+        t += 1
+        ops += second([1, 2], t)
+    for a, b in ((1, 2), (2, 1)):
+        ops += ["nframe %d %s" % (a, hx(ipv4_packet(ip4(a), ip4(b), b"again"))), "ndeliver 0"]
+    ops.append("nexpect mesh 1 2")
+    return Script(name, ops, {"suite": "node", "noshrink": True})
